@@ -32,7 +32,7 @@ def run(ctx):
     no_flooring(rep, F)
     from rules import position
     npos = position.check(rep, F)
-    rep.floor('position obligations of with_scale_round', npos, 5)
+    rep.floor('position obligations of with_scale_round', npos, 6)
     nm = TR.mode_dispatch(rep, F)
     rep.floor('functions dispatching on the rounding mode', nm, 3)
     rep.extra['exhaustive_table'] = True
